@@ -1,5 +1,84 @@
+"""Unit-level queries shared by C02 / C04 / C08 / C01 / C11 / C06."""
 from vcore import Query
+from shapes import S1, S2
+
+U = ["rcgen::CertificateParams::write_key_usage", "rcgen::KeyUsagePurpose::to_u16", "rcgen::write_x509_extension", "yasna::DERWriter::write_bitvec_bytes"]
+
+
+def ku_queries(prefix, check, tier):
+    qs = [Query(name=f"{prefix}_ku_bits", body=f"    units::ku_bits({check});", unwind=14, family="ku_bits", stubs=S1, functions=U, timeout=900,
+                shape="symbolic 9-bit mask: all 511 non-empty key-usage subsets through the real key-usage extension writer")]
+    for n in ((2,) if tier == "quick" else (1, 2, 3)):
+        qs.append(Query(name=f"{prefix}_ku_seq_{n}", body=f"    units::ku_sequence({n}, {check});", unwind=14, family="ku_sequence", stubs=S1,
+                        functions=U, timeout=900, shape=f"{n} arbitrary key-usage purposes in arbitrary order, duplicates included"))
+    return qs
+
+
+def cidr_queries(prefix):
+    f = ["rcgen::CidrSubnet::from_v4_prefix", "rcgen::CidrSubnet::from_v6_prefix", "rcgen::CidrSubnet::from_addr_prefix", "rcgen::CidrSubnet::to_bytes"]
+    return [Query(name=f"{prefix}_cidr_v4", body="    units::cidr_mask_v4();", unwind=20, family="cidr_mask", functions=f,
+                  shape="IPv4: address symbolic, prefix length 0..=255 symbolic"),
+            Query(name=f"{prefix}_cidr_v6", body="    units::cidr_mask_v6();", unwind=40, family="cidr_mask", functions=f,
+                  shape="IPv6: address symbolic, prefix length 0..=255 symbolic")]
+
+
+def name_unit_queries(prefix):
+    return [Query(name=f"{prefix}_san_othername", body="    units::san_othername();", unwind=24, family="san_othername", stubs=S1, timeout=1200,
+                  functions=["rcgen::CertificateParams::write_subject_alt_names", "rcgen::OtherNameValue::write_der"],
+                  shape="otherName SAN: OID 1.2.41, [0] EXPLICIT UTF8String of 2 symbolic bytes"),
+            Query(name=f"{prefix}_subtree_dirname_0", body="    units::subtree_dirname(0);", unwind=24, family="subtree_dirname", stubs=S1, timeout=1200,
+                  functions=["rcgen::certificate::write_general_subtrees", "rcgen::write_distinguished_name"],
+                  shape="permitted subtree with directoryName (empty name): [4] must be EXPLICIT"),
+            Query(name=f"{prefix}_subtree_dirname_1", body="    units::subtree_dirname(1);", unwind=24, family="subtree_dirname", stubs=S1, timeout=1200,
+                  functions=["rcgen::certificate::write_general_subtrees", "rcgen::write_distinguished_name"],
+                  shape="excluded subtree with directoryName (empty name): [4] must be EXPLICIT")]
+
+
+def serial_queries(prefix, tier):
+    ns = (0, 1, 2, 3) if tier == "quick" else (0, 1, 2, 3, 4, 5, 8, 20, 21)
+    qs = [Query(name=f"{prefix}_bigint_{n}", body=f"    units::bigint_unit::<{n}>();", unwind=max(20, n + 6), family="bigint_unit", field_sens=64,
+                functions=["yasna::DERWriter::write_bigint_bytes (the call rcgen makes for serial numbers and CRL numbers)"], timeout=900,
+                shape=f"INTEGER from {n} arbitrary magnitude bytes (leading zeros, high bit set, all zero)") for n in ns]
+    qs.append(Query(name=f"{prefix}_serial_int_0", body="    units::serial_integer::<0>();", unwind=20, family="serial_integer", field_sens=64,
+                    functions=["rcgen::RevokedCertParams::write_der"], shape="revoked entry with an empty serial (value 0)"))
+    return qs
+
+
+def algid_queries(prefix):
+    f = ["rcgen::SignatureAlgorithm::write_alg_ident", "rcgen::SignatureAlgorithm::write_oids_sign_alg", "rcgen::SignatureAlgorithm::write_params"]
+    names = ["RSA_SHA256", "RSA_SHA384", "RSA_SHA512", "ECDSA_P256_SHA256", "ECDSA_P384_SHA384", "ED25519", "RSA_PSS_SHA256"]
+    return [Query(name=f"{prefix}_algid_{i}", body=f"    units::algid_table({i});", unwind=70, family="algid_table", functions=f,
+                  shape=f"{names[i]}: signature and SPKI AlgorithmIdentifier vs. the RFC 4055/5758/8410/5480 bytes") for i in range(7)]
+
+
+def sign_wrap_queries(prefix, tier):
+    f = ["rcgen::KeyPair::sign_der", "rcgen::KeyPair::sign (Remote arm)", "rcgen::SignatureAlgorithm::write_alg_ident"]
+    ns = (0, 5, 127) if tier == "quick" else (0, 1, 5, 125, 126, 127, 128, 129, 255, 256)
+    qs = []
+    for n in ns:
+        qs.append(Query(name=f"{prefix}_sign_wrap_{n}", body=f"    units::sign_wrap::<{n}>(5, false);", unwind=n + 40, family="sign_wrap", functions=f,
+                        timeout=1200, shape=f"to-be-signed body of {n} symbolic bytes, Ed25519 identifier, 3 symbolic signature bytes"))
+    for a in ((0, 3) if tier == "quick" else (0, 1, 2, 3, 4)):
+        qs.append(Query(name=f"{prefix}_sign_wrap_alg{a}", body=f"    units::sign_wrap::<3>({a}, false);", unwind=60, family="sign_wrap", functions=f,
+                        shape=f"body 3 bytes, algorithm table entry {a}"))
+    qs.append(Query(name=f"{prefix}_sign_wrap_fail", body="    units::sign_wrap::<3>(5, true);", unwind=60, family="sign_wrap_fail", functions=f,
+                    shape="the signer returns Err: sign_der returns Err(RemoteKeyError)"))
+    return qs
+
+
+def alg_table_queries(prefix):
+    f = ["<rcgen::SignatureAlgorithm as PartialEq>::eq", "<rcgen::SignatureAlgorithm as Hash>::hash", "rcgen::SignatureAlgorithm::from_oid"]
+    qs = [Query(name=f"{prefix}_alg_table_{i}", body=f"    units::alg_table({i});", unwind=80, family="alg_table", functions=f,
+                field_sens=64, shape=f"table entry {i} against every entry j: (a == b) <=> (i == j); a == b => same hasher input") for i in range(6)]
+    return qs
+
+
+def from_oid_queries(prefix, tier):
+    f = ["rcgen::SignatureAlgorithm::from_oid"]
+    ns = (0, 1, 4, 7) if tier == "quick" else (0, 1, 2, 3, 4, 5, 6, 7, 8)
+    return [Query(name=f"{prefix}_from_oid_{n}", body=f"    units::from_oid_total::<{n}>();", unwind=8 * n + 12, family="from_oid_total", functions=f, field_sens=64,
+                  shape=f"every OID of {n} arcs (arcs symbolic u64): Ok(entry) iff it is one of the six registered signature OIDs") for n in ns]
 
 
 def queries(tier):
-    return []
+    return ku_queries("c02", 1, tier) + cidr_queries("c02") + name_unit_queries("c02")
